@@ -35,6 +35,9 @@ pub enum Edit {
     /// synthetic project: one option value replaced by another value the parser knows
     /// (`flags_on`: every XML `NO` leaf is switched to `SI` as well)
     ValueSwap { line: usize, start: usize, end: usize, text: String, flags_on: bool },
+    /// generated project: every wall / window / construction block that belongs to the SPACE
+    /// whose header is at `line` is removed (the space itself stays)
+    SpaceEmptied { line: usize },
     /// C02: definition header renamed (references untouched)
     DefRenamed { line: usize },
     /// C02: definition block removed
@@ -59,6 +62,7 @@ impl Edit {
             Edit::ByteFlip { .. } => "disk.byte_flip",
             Edit::CrlfFlipLine { .. } | Edit::CrlfFlipFile => "disk.crlf_flip",
             Edit::ValueSwap { .. } => "proj.option_value",
+            Edit::SpaceEmptied { .. } => "proj.space_emptied",
             Edit::DefRenamed { .. } => "disk.def_renamed",
             Edit::DefRemoved { .. } => "disk.def_removed",
             Edit::RefRenamed { .. } => "disk.ref_renamed",
@@ -79,6 +83,7 @@ impl Edit {
             | Edit::ByteFlip { line, .. }
             | Edit::CrlfFlipLine { line }
             | Edit::ValueSwap { line, .. }
+            | Edit::SpaceEmptied { line }
             | Edit::DefRenamed { line }
             | Edit::DefRemoved { line }
             | Edit::RefRenamed { line, .. } => Some(*line),
@@ -555,6 +560,28 @@ pub fn apply(text: &str, e: &Edit) -> Option<String> {
             };
             let mut v = lines.clone();
             v[*line] = &newl;
+            Some(join(&v))
+        }
+        Edit::SpaceEmptied { line } => {
+            get(*line)?;
+            let blocks = scan_blocks(&lines);
+            let bi = blocks.iter().position(|b| b.start == *line && b.btype == "SPACE")?;
+            let mut drop_ranges: Vec<(usize, usize)> = vec![];
+            for b in &blocks[bi + 1..] {
+                match b.btype.as_str() {
+                    "EXTERIOR-WALL" | "INTERIOR-WALL" | "UNDERGROUND-WALL" | "ROOF" | "WINDOW" | "CONSTRUCTION" | "DOOR" => drop_ranges.push((b.start, b.end)),
+                    _ => break,
+                }
+            }
+            if drop_ranges.is_empty() {
+                return None;
+            }
+            let v: Vec<&str> = lines
+                .iter()
+                .enumerate()
+                .filter(|(i, _)| !drop_ranges.iter().any(|(a, b)| i >= a && i <= b))
+                .map(|(_, l)| *l)
+                .collect();
             Some(join(&v))
         }
         Edit::ValueSwap { line, start, end, text: new, flags_on } => {
